@@ -137,8 +137,21 @@ def case_key(op):
     return json.dumps([op['pre'], [[s['c'], s['cmd']] for s in op['steps']]], sort_keys=True)
 
 
+def _live_view(post):
+    now = post.get('now', 0)
+    ents = sorted((json.dumps(e, sort_keys=True) for e in post['ents'] if e['v'].get('exp', 0) == 0 or e['v']['exp'] > now))
+    return [ents, sorted(json.dumps(c, sort_keys=True) for c in post.get('conn', []))]
+
+
+def _same_expect(a, b):
+    return a['r'] == b['r'] and _live_view(a['post']) == _live_view(b['post'])
+
+
 def join_cases(ops):
-    """Join the ideal and the deviated reading of every transition into replay cases."""
+    """Join the ideal and the deviated reading of every case into replay cases.  In a multi-step
+    case the deviated expectation is attached only to the first step at which the two readings
+    disagree (up to there both readings describe the same trajectory); the replay engine stops a
+    case at a known deviation."""
     ideal, real = {}, {}
     for op in ops:
         if 'steps' not in op:
@@ -148,14 +161,22 @@ def join_cases(ops):
     for k, op in ideal.items():
         steps = []
         rop = real.get(k)
+        agree = rop is not None
+        diverged = False
+        dvs = []
         for i, s in enumerate(op['steps']):
             st = {'c': s['c'], 'cmd': s['cmd'],
                   'ideal': {'r': s['r'], 'post': s['post'], 'rel': s.get('rel', []), 'tol': s.get('tol', [])}}
-            if rop is not None:
+            if agree:
                 rs = rop['steps'][i]
-                if rs['dv']:
-                    st['real'] = {'r': rs['r'], 'post': rs['post'], 'rel': rs.get('rel', []),
-                                  'tol': rs.get('tol', []), 'dv': rs['dv']}
+                dvs = sorted(set(dvs) | set(rs['dv']))
+                if diverged or not _same_expect(s, rs):
+                    # from the first disagreement on, the deviated trajectory is carried along; the replay
+                    # engine uses it only while the observations are consistent with it
+                    diverged = True
+                    if dvs:
+                        st['real'] = {'r': rs['r'], 'post': rs['post'], 'rel': rs.get('rel', []),
+                                      'tol': rs.get('tol', []), 'dv': dvs}
             steps.append(st)
         cases.append({'fam': op.get('fam', ''), 'pre': op['pre'], 'steps': steps})
     cases.sort(key=lambda c: json.dumps([c['pre'], [s['cmd'] for s in c['steps']]], sort_keys=True))
